@@ -177,6 +177,60 @@ def build_binary(timeout=1800):
     return os.path.join(tdir, "debug", "pytest-language-server")
 
 
+def build_h4(timeout=2400):
+    """H4: the harness AND the server binary (compiled straight from /repo/src/main.rs) built
+    against the instrumented copy of dashmap (harness/vendor/dashmap, [patch.crates-io] in a
+    manifest generated here from /repo/Cargo.toml's dependency list; /repo is untouched)."""
+    hdir = os.path.join(VERIF, "harness_h4")
+    os.makedirs(os.path.join(hdir, ".cargo"), exist_ok=True)
+    man = open(os.path.join(REPO, "Cargo.toml"), encoding="utf-8").read()
+    m = re.search(r"\[dependencies\]\n(.*?)\n\[", man, re.S)
+    if not m:
+        raise TieBroken("h4-manifest", "no [dependencies] section in /repo/Cargo.toml")
+    deps = m.group(1).strip()
+    text = """[package]
+name = "pls-verif-harness-h4"
+version = "0.1.0"
+edition = "2021"
+
+[workspace]
+
+[dependencies]
+pytest-language-server = { path = "%s" }
+%s
+
+[[bin]]
+name = "h4"
+path = "../harness/src/main.rs"
+
+[[bin]]
+name = "pls_h4"
+path = "%s/src/main.rs"
+
+[profile.dev]
+debug = 1
+opt-level = 1
+
+[patch.crates-io]
+dashmap = { path = "../harness/vendor/dashmap" }
+""" % (REPO, deps, REPO)
+    mp = os.path.join(hdir, "Cargo.toml")
+    if not os.path.exists(mp) or open(mp).read() != text:
+        open(mp, "w").write(text)
+    cfg = '[net]\noffline = true\n[build]\ntarget-dir = "%s"\nrustflags = ["--cfg", "%s"]\n' % (os.path.join(CACHE, "target_h4"), GUARD)
+    cp = os.path.join(hdir, ".cargo", "config.toml")
+    if not os.path.exists(cp) or open(cp).read() != cfg:
+        open(cp, "w").write(cfg)
+    lock_dst = os.path.join(hdir, "Cargo.lock")
+    if not os.path.exists(lock_dst):
+        shutil.copy(os.path.join(REPO, "Cargo.lock"), lock_dst)
+    rc, out = sh("cargo build --offline 2>&1", cwd=hdir, timeout=timeout)
+    if rc != 0:
+        raise TieBroken("h4-build", out[-3000:])
+    d = os.path.join(CACHE, "target_h4", "debug")
+    return os.path.join(d, "h4"), os.path.join(d, "pls_h4")
+
+
 def run_h1(h1, cases, name, timeout=1200):
     """cases: [{"id":..,"ops":[..]}] -> {id: obs list}"""
     d = os.path.join(CACHE, "cases")
